@@ -1192,3 +1192,76 @@ fn m_table() -> HashMap<i32, HashMap<&'static str, f64>> {
         ),
     ])
 }
+
+/// Verification hooks: expose the private helpers.
+#[cfg(feature = "verif_hooks")]
+pub mod verif_hooks {
+    use crate::Scad;
+
+    /// The row `m_table_lookup(m)` returns: pitch, external_dMaj, internal_dMaj, nut_width, chamfer_size.
+    pub fn m_table_lookup(m: i32) -> [f64; 5] {
+        let row = super::m_table_lookup(m);
+        [
+            row["pitch"],
+            row["external_dMaj"],
+            row["internal_dMaj"],
+            row["nut_width"],
+            row["chamfer_size"],
+        ]
+    }
+
+    /// The whole table, sorted by key.
+    pub fn m_table() -> Vec<(i32, [f64; 5])> {
+        let t = super::m_table();
+        let mut rows: Vec<(i32, [f64; 5])> = t
+            .iter()
+            .map(|(k, row)| {
+                (
+                    *k,
+                    [
+                        row["pitch"],
+                        row["external_dMaj"],
+                        row["internal_dMaj"],
+                        row["nut_width"],
+                        row["chamfer_size"],
+                    ],
+                )
+            })
+            .collect();
+        rows.sort_by_key(|r| r.0);
+        rows
+    }
+
+    pub fn thread_height_from_pitch(pitch: f64) -> f64 {
+        super::thread_height_from_pitch(pitch)
+    }
+
+    pub fn d_min_from_d_maj_pitch(d_maj: f64, pitch: f64) -> f64 {
+        super::d_min_from_d_maj_pitch(d_maj, pitch)
+    }
+
+    #[allow(clippy::too_many_arguments)]
+    pub fn threaded_cylinder(
+        d_min: f64,
+        d_maj: f64,
+        pitch: f64,
+        length: f64,
+        segments: u64,
+        lead_in_degrees: f64,
+        lead_out_degrees: f64,
+        left_hand_thread: bool,
+        center: bool,
+    ) -> Scad {
+        super::threaded_cylinder(
+            d_min,
+            d_maj,
+            pitch,
+            length,
+            segments,
+            lead_in_degrees,
+            lead_out_degrees,
+            left_hand_thread,
+            center,
+        )
+    }
+}
